@@ -7,8 +7,9 @@ violation and never a silent pass.
 """
 import json, os, subprocess, time, hashlib, re
 
-HARNESS = "/verif/harness"
-BUILD = "/verif/.build"
+_ROOT = os.path.dirname(os.path.dirname(os.path.abspath(__file__)))
+HARNESS = os.path.join(_ROOT, "harness")
+BUILD = os.path.join(_ROOT, ".build")
 CFG = "--cfg georust_geo_verif"
 TARGET = "x86_64-unknown-linux-gnu"
 
